@@ -619,6 +619,9 @@ pub struct BloomFilterIndexBuilder {
     // The local offset within the current zones
     cur_zone_offset: usize,
     cur_fragment_id: u64,
+    // Offsets (within the fragment) of the first and last row of the current zone
+    cur_zone_first: u64,
+    cur_zone_last: u64,
     cur_zone_has_null: bool,
     sbbf: Option<Sbbf>,
 }
@@ -639,6 +642,8 @@ impl BloomFilterIndexBuilder {
             blocks: Vec::new(),
             cur_zone_offset: 0,
             cur_fragment_id: 0,
+            cur_zone_first: 0,
+            cur_zone_last: 0,
             cur_zone_has_null: false,
             sbbf: Some(sbbf),
         })
@@ -922,13 +927,11 @@ impl BloomFilterIndexBuilder {
     }
 
     fn new_block(&mut self, fragment_id: u64) -> Result<()> {
-        // Calculate zone_start based on existing zones in the same fragment
-        let zone_start = self
-            .blocks
-            .iter()
-            .filter(|block| block.fragment_id == fragment_id)
-            .map(|block| block.zone_length as u64)
-            .sum::<u64>();
+        // A zone covers the row offsets [first, last] of the rows it was built from. Rows may
+        // be missing in between (deleted rows are not part of the training data), so the
+        // zone is described by the span of offsets, not by the number of rows seen.
+        let zone_start = self.cur_zone_first.min(self.cur_zone_last);
+        let zone_span = (self.cur_zone_first.max(self.cur_zone_last) - zone_start + 1) as usize;
 
         // Store the current bloom filter directly
         let bloom_filter = if let Some(ref sbbf) = self.sbbf {
@@ -948,7 +951,7 @@ impl BloomFilterIndexBuilder {
         let new_block = BloomFilterStatistics {
             fragment_id,
             zone_start,
-            zone_length: self.cur_zone_offset,
+            zone_length: zone_span,
             has_null: self.cur_zone_has_null,
             bloom_filter,
         };
@@ -991,56 +994,36 @@ impl BloomFilterIndexBuilder {
                 .downcast_ref::<arrow_array::UInt64Array>()
                 .unwrap();
 
-            let mut remaining = batch.num_rows();
+            let num_rows = batch.num_rows();
             let mut array_offset: usize = 0;
 
-            // Initialize cur_fragment_id from the first row address if this is the first batch
-            if self.blocks.is_empty() && self.cur_zone_offset == 0 {
-                let first_row_addr = row_addrs_array.value(0);
-                self.cur_fragment_id = first_row_addr >> 32;
-            }
-
-            while remaining > 0 {
-                // Find the next fragment boundary in this batch
-                let next_fragment_index = (array_offset..row_addrs_array.len()).find(|&i| {
-                    let row_addr = row_addrs_array.value(i);
-                    let fragment_id = row_addr >> 32;
-                    fragment_id == self.cur_fragment_id + 1
-                });
-                let empty_rows_left_in_cur_zone: usize =
-                    (self.params.number_of_items - self.cur_zone_offset as u64) as usize;
-
-                // Check if there is enough data from the current fragment to fill the current zone
-                let desired = if let Some(idx) = next_fragment_index {
-                    self.cur_fragment_id = row_addrs_array.value(idx) >> 32;
-                    // Take the minimum between distance to boundary and space left in zone
-                    // to ensure we don't exceed the zone size limit
-                    std::cmp::min(idx - array_offset, empty_rows_left_in_cur_zone)
-                } else {
-                    empty_rows_left_in_cur_zone
-                };
-
-                if desired > remaining {
-                    // Not enough data to fill a map, just increment counts
-                    self.update_stats(&data_array.slice(array_offset, remaining))?;
-                    self.cur_zone_offset += remaining;
-                    break;
-                } else if desired > 0 {
-                    // There is enough data, create a new zone
-                    self.update_stats(&data_array.slice(array_offset, desired))?;
-                    self.cur_zone_offset += desired;
-                    self.new_block(row_addrs_array.value(array_offset) >> 32)?;
-                } else if desired == 0 {
-                    // The new batch starts with a new fragment. Flush the current zone if it's not empty
-                    if self.cur_zone_offset > 0 {
-                        self.new_block(self.cur_fragment_id - 1)?;
-                    }
-                    // Let the loop run again
-                    // to find the next fragment boundary
-                    continue;
+            while array_offset < num_rows {
+                let row_addr = row_addrs_array.value(array_offset);
+                let fragment_id = row_addr >> 32;
+                // A zone never spans two fragments (fragment ids need not be consecutive)
+                if self.cur_zone_offset > 0 && fragment_id != self.cur_fragment_id {
+                    self.new_block(self.cur_fragment_id)?;
                 }
-                array_offset += desired;
-                remaining = remaining.saturating_sub(desired);
+                if self.cur_zone_offset == 0 {
+                    self.cur_fragment_id = fragment_id;
+                    self.cur_zone_first = row_addr & 0xFFFF_FFFF;
+                }
+                let capacity = (self.params.number_of_items - self.cur_zone_offset as u64) as usize;
+                let mut end = array_offset + 1;
+                while end < num_rows
+                    && end - array_offset < capacity
+                    && (row_addrs_array.value(end) >> 32) == fragment_id
+                {
+                    end += 1;
+                }
+                let take = end - array_offset;
+                self.update_stats(&data_array.slice(array_offset, take))?;
+                self.cur_zone_offset += take;
+                self.cur_zone_last = row_addrs_array.value(end - 1) & 0xFFFF_FFFF;
+                if self.cur_zone_offset as u64 >= self.params.number_of_items {
+                    self.new_block(fragment_id)?;
+                }
+                array_offset = end;
             }
         }
         // Create the final zone
